@@ -6,8 +6,8 @@
     [mismatch], [required]).  The third-party decoders (base64, time.Parse, UnmarshalText) are
     universally quantified functions; their encoders only have to satisfy the round-trip hypotheses
     written in each statement (instantiated at the end of the file). *)
-From Coq Require Import List ZArith String.
-From Thunder Require Import Lib.Json Args.Model Args.Spec Args.Proofs Args.ProofsReject.
+From Coq Require Import List ZArith String Lia.
+From Thunder Require Import Lib.Json Args.Model Args.Spec Args.Proofs Args.ProofsReject Args.ProofsInst.
 Import ListNotations.
 Local Open Scope Z_scope.
 
@@ -155,3 +155,66 @@ Theorem no_resolver_before_args :
        exists args, prepare b64 tdec xdec rq = Ok args /\ nth_error args i = Some a).
 Proof. exact Proofs.no_resolver_before_args. Qed.
 Print Assumptions no_resolver_before_args.
+
+(** * The hypotheses are satisfiable by the decoders the correspondence check runs *)
+Theorem base64_roundtrip : forall b, bytes_ok b -> b64_dec (b64_enc b) = Some b.
+Proof. exact ProofsInst.b64_roundtrip. Qed.
+Print Assumptions base64_roundtrip.
+
+(** Both transports with the concrete base64 codec (all byte strings), the catalogue TextUnmarshaler
+    (all strings) and RFC 3339 on a sample of printed times. *)
+Theorem concrete_transports :
+  forall (t : ty) (v : gv),
+    wf_ty t -> sendable time_sample_ok (fun _ => True) t v ->
+    parse b64_dec time_dec text_dec t (json_of b64_enc time_enc_sample text_enc t v) = Ok v /\
+    exists j, vtj [] (lit_of b64_enc time_enc_sample text_enc "nul" t v) = Ok j /\
+              parse b64_dec time_dec text_dec t j = Ok v.
+Proof. exact ProofsInst.concrete_transports. Qed.
+Print Assumptions concrete_transports.
+
+(** A non-trivial argument struct and value meeting [wf_ty] and [sendable]. *)
+Definition ex_color : ty := TEnum (GInt 0) [("RED"%string, GInt 1); ("GREEN"%string, GInt 2)].
+Definition ex_ty : ty :=
+  TStruct [("a"%string, TInt I32); ("b"%string, TPtr TString); ("c"%string, TOpt (TList ex_color));
+           ("d"%string, TStruct [("n"%string, TInt U8); ("t"%string, TTime); ("x"%string, TText)]);
+           ("e"%string, TBytes); ("f"%string, TList (TPtr TF32)); ("g"%string, TOpt TF64)].
+Definition ex_val : gv :=
+  GStruct [("a"%string, GInt (-5)); ("b"%string, GNil); ("c"%string, GList [GInt 2; GInt 1]);
+           ("d"%string, GStruct [("n"%string, GInt 255); ("t"%string, GTime (mk_tval 2024 2 29 23 59 59 123000000 19800));
+                                 ("x"%string, GText "hello"%string)]);
+           ("e"%string, GBytes [1; 2; 255]); ("f"%string, GList [GNil; GPtr (GFlt 3 (-1))]);
+           ("g"%string, GFlt 0 0)].
+
+Example ex_wf : wf_ty ex_ty.
+Proof.
+  cbn. repeat split; repeat constructor; cbn; intuition discriminate.
+Qed.
+
+Example ex_sendable : sendable time_sample_ok (fun _ => True) ex_ty ex_val.
+Proof.
+  cbn [sendable ex_ty ex_val ex_color].
+  eexists; split; [reflexivity|].
+  repeat split.
+  - exists (-5). vm_compute. intuition discriminate.
+  - left; reflexivity.
+  - eexists; split; [reflexivity|]. repeat constructor; eexists; reflexivity.
+  - eexists; split; [reflexivity|]. repeat split.
+    + exists 255. vm_compute. intuition discriminate.
+    + eexists; split; [reflexivity|]. right; left; reflexivity.
+    + eexists; split; [reflexivity | exact I].
+  - eexists; split; [reflexivity|]. repeat constructor; lia.
+  - eexists; split; [reflexivity|]. constructor; [left; reflexivity|]. constructor; [|constructor].
+    right. eexists; split; [reflexivity|]. exists 3, (-1). vm_compute. intuition discriminate.
+  - exists 0, 0. split; reflexivity.
+Qed.
+
+Example ex_echo :
+  parse b64_dec time_dec text_dec ex_ty (json_of b64_enc time_enc_sample text_enc ex_ty ex_val) = Ok ex_val.
+Proof. exact (proj1 (concrete_transports ex_ty ex_val ex_wf ex_sendable)). Qed.
+
+(** The same request with one wrong kind inside is refused before any resolver step. *)
+Example ex_reject :
+  parse b64_dec time_dec text_dec ex_ty
+        (VObj [("a"%string, VNum 1 0); ("d"%string, VObj [("n"%string, VStr "5"%string)]); ("e"%string, VStr ""%string);
+               ("f"%string, VArr [])]) = Err EArgs.
+Proof. apply kind_mismatch_rejected. reflexivity. Qed.
